@@ -50,21 +50,27 @@ static inline int64_t c12_ceil_x(const c12_line *l, int64_t y)
 {
     int64_t x1 = l->x1, y1 = l->y1, x2 = l->x2, y2 = l->y2;
     if (y1 > y2) { int64_t t = x1; x1 = x2; x2 = t; t = y1; y1 = y2; y2 = t; }
-    __int128 dy = y2 - y1, dx = x2 - x1;
-    __int128 num = (__int128)x1 * dy + (__int128)(y - y1) * dx;
-    __int128 q = num / dy, r = num % dy;
-    if (r > 0) q++;
-    return (int64_t)q;
+    int64_t dy = y2 - y1, dx = x2 - x1, n = y - y1;
+    /* X = x1 + n*dx/dy exactly; ceil(X) = x1 + ceil(n*dx/dy) */
+    if (dy < ((int64_t)1 << 30) && dx > -((int64_t)1 << 31) && dx < ((int64_t)1 << 31) && n > -((int64_t)1 << 31) && n < ((int64_t)1 << 31)) {
+        int64_t num = n * dx, q = num / dy, r = num % dy;       /* |num| < 2^62 */
+        if (r > 0) q++;
+        return x1 + q;
+    } else {
+        __int128 num = (__int128)n * dx, q = num / dy, r = num % dy;
+        if (r > 0) q++;
+        return x1 + (int64_t)q;
+    }
 }
 
 /* number of sample columns of pixel px that are < v */
 static inline int c12_nlt(const c12_grid *g, int64_t v, int px)
 {
-    int64_t f = v - (int64_t)px * 65536;
-    if (f <= g->x0) return 0;
-    if (f > 65536) f = 65536;
-    int64_t c = (f - g->x0 + g->xstep - 1) / g->xstep;
-    return c > g->nx ? g->nx : (int)c;
+    int64_t f64 = v - (int64_t)px * 65536;
+    if (f64 <= g->x0) return 0;
+    if (f64 > 65536) return g->nx;
+    int c = ((int)f64 - g->x0 + g->xstep - 1) / g->xstep;
+    return c > g->nx ? g->nx : c;
 }
 /* number of sample columns s of pixel px with a <= s < b */
 static inline int c12_cnt(const c12_grid *g, int64_t a, int64_t b, int px)
@@ -72,15 +78,42 @@ static inline int c12_cnt(const c12_grid *g, int64_t a, int64_t b, int px)
     if (b <= a) return 0;
     return c12_nlt(g, b, px) - c12_nlt(g, a, px);
 }
+/* counts per pixel: ideal rule, and the intervals reachable by moving each edge by <= 1 ulp (lo,hi) resp. <= 2 ulp (lo2,hi2)
+ * at each sample row.  lo2/hi2 are only filled for depth 1 (see c12_traps.c: the 1-bit rasteriser compounds two one-ulp effects). */
+#define C12_MAXPIX 96
+typedef struct { int ideal[C12_MAXPIX], lo[C12_MAXPIX], hi[C12_MAXPIX], lo2[C12_MAXPIX], hi2[C12_MAXPIX]; } c12_counts;
+
+/* add the samples s of one row with a <= s < b to cnt[0..W) */
+static inline void c12_add_span(const c12_grid *g, int W, int64_t a, int64_t b, int *cnt)
+{
+    if (b <= a) return;
+    int64_t p0 = a >> 16, p1 = (b - 1) >> 16;
+    if (p0 < 0) p0 = 0;
+    if (p1 > W - 1) p1 = W - 1;
+    for (int64_t p = p0; p <= p1; p++) {
+        if (a <= p * 65536 && (p + 1) * 65536 <= b) cnt[p] += g->nx;
+        else cnt[p] += c12_nlt(g, b, (int)p) - c12_nlt(g, a, (int)p);
+    }
+}
+/* add one sample row (pixel row py) with ceil(L) = cl, ceil(R) = cr */
+static inline void c12_add_row(const c12_grid *g, int W, int py, int64_t cl, int64_t cr, c12_counts *c)
+{
+    c12_add_span(g, W, cl, cr, c->ideal + py * W);
+    c12_add_span(g, W, cl + 1, cr - 1, c->lo + py * W);
+    c12_add_span(g, W, cl - 1, cr + 1, c->hi + py * W);
+    if (g->bpp == 1) {
+        c12_add_span(g, W, cl + 2, cr - 2, c->lo2 + py * W);
+        c12_add_span(g, W, cl - 2, cr + 2, c->hi2 + py * W);
+    }
+}
 
 static inline int c12_trap_valid(const pixman_trapezoid_t *t)
 {
     return t->left.p1.y != t->left.p2.y && t->right.p1.y != t->right.p2.y && t->bottom > t->top;
 }
 
-/* add the coverage of one trapezoid, drawn with integer offsets, to ideal/lo/hi (W*H ints each) */
-static void c12_ref_trap(const c12_grid *g, int W, int H, const pixman_trapezoid_t *t, int xoff, int yoff,
-                         int *ideal, int *lo, int *hi)
+/* add the coverage of one trapezoid, drawn with integer offsets, to the counts (W*H <= C12_MAXPIX) */
+static void c12_ref_trap(const c12_grid *g, int W, int H, const pixman_trapezoid_t *t, int xoff, int yoff, c12_counts *c)
 {
     if (!c12_trap_valid(t)) return;
     int64_t top = (int64_t)t->top + (int64_t)yoff * 65536, bot = (int64_t)t->bottom + (int64_t)yoff * 65536;
@@ -90,18 +123,13 @@ static void c12_ref_trap(const c12_grid *g, int W, int H, const pixman_trapezoid
             int64_t y = (int64_t)py * 65536 + g->y0 + (int64_t)k * g->ystep;
             if (y < top || y >= bot) continue;
             int64_t cl = c12_ceil_x(&L, y), cr = c12_ceil_x(&R, y);
-            for (int px = 0; px < W; px++) {
-                ideal[py * W + px] += c12_cnt(g, cl, cr, px);
-                lo[py * W + px]    += c12_cnt(g, cl + 1, cr - 1, px);
-                hi[py * W + px]    += c12_cnt(g, cl - 1, cr + 1, px);
-            }
+            c12_add_row(g, W, py, cl, cr, c);
         }
 }
 
 /* Triangle as a point set: sample (s,y) is inside iff ymin <= y < ymax and Lt(y) <= s < Rt(y), [Lt,Rt] being the
  * cross-section of the triangle at y (min / max of the x of the non-horizontal sides that span y). */
-static void c12_ref_tri(const c12_grid *g, int W, int H, const pixman_triangle_t *tri, int xoff, int yoff,
-                        int *ideal, int *lo, int *hi)
+static void c12_ref_tri(const c12_grid *g, int W, int H, const pixman_triangle_t *tri, int xoff, int yoff, c12_counts *c)
 {
     const pixman_point_fixed_t *p[3] = { &tri->p1, &tri->p2, &tri->p3 };
     int64_t ymin = p[0]->y, ymax = p[0]->y;
@@ -127,11 +155,7 @@ static void c12_ref_tri(const c12_grid *g, int W, int H, const pixman_triangle_t
                 if (!have) { cl = cr = c; have = 1; } else { if (c < cl) cl = c; if (c > cr) cr = c; }
             }
             if (!have) continue;
-            for (int px = 0; px < W; px++) {
-                ideal[py * W + px] += c12_cnt(g, cl, cr, px);
-                lo[py * W + px]    += c12_cnt(g, cl + 1, cr - 1, px);
-                hi[py * W + px]    += c12_cnt(g, cl - 1, cr + 1, px);
-            }
+            c12_add_row(g, W, py, cl, cr, c);
         }
 }
 
